@@ -41,6 +41,12 @@ func init() {
 		"(*sync.RWMutex).Lock":    hMutexLock,
 		"(*sync.RWMutex).Unlock":  hMutexUnlock,
 		"(*sync.RWMutex).RLock":   hRLock,
+		"(*sync.Mutex).TryLock":    hMutexTryLock,
+		"(*sync.RWMutex).TryLock":  hMutexTryLock,
+		"(*sync.RWMutex).TryRLock": hTryRLock,
+		"(*sync.Cond).Wait":        hCondWait,
+		"(*sync.Cond).Signal":      hCondSignal,
+		"(*sync.Cond).Broadcast":   hCondBroadcast,
 		"(*sync.RWMutex).RUnlock": hRUnlock,
 		"(*sync.WaitGroup).Add":   hWGAdd,
 		"(*sync.WaitGroup).Done":  hWGDone,
@@ -550,6 +556,98 @@ func hMutexLock(m *Machine, fr *frame, fn *ssa.Function, a []Value) Value {
 	return nil
 }
 
+// TryLock / TryRLock: succeed exactly when the lock is free at this moment (never block). The real implementation may
+// also fail spuriously under contention only in the sense of losing a race that this model orders explicitly.
+func hMutexTryLock(m *Machine, fr *frame, fn *ssa.Function, a []Value) Value {
+	p := a[0].(*Value)
+	m.yield("lock")
+	s := m.mutexOf(p)
+	if s.writer || s.readers > 0 {
+		return m.C.BoolC(false)
+	}
+	s.writer = true
+	s.owner = m.cur
+	return m.C.BoolC(true)
+}
+
+func hTryRLock(m *Machine, fr *frame, fn *ssa.Function, a []Value) Value {
+	p := a[0].(*Value)
+	m.yield("rlock")
+	s := m.mutexOf(p)
+	if s.writer {
+		return m.C.BoolC(false)
+	}
+	s.readers++
+	return m.C.BoolC(true)
+}
+
+// sync.Cond: Wait releases c.L, parks until a Signal/Broadcast issued after it started waiting, re-acquires c.L.
+func (m *Machine) condOf(p *Value) *condState {
+	if m.conds == nil {
+		m.conds = map[*Value]*condState{}
+	}
+	c := m.conds[p]
+	if c == nil {
+		c = &condState{}
+		m.conds[p] = c
+	}
+	return c
+}
+
+func (m *Machine) condLocker(fr *frame, p *Value) Iface {
+	st := (*p).(Struct)
+	// type Cond struct { noCopy; L Locker; notify notifyList; checker copyChecker }
+	for _, f := range st {
+		if i, ok := f.(Iface); ok {
+			return i
+		}
+	}
+	m.engineErr("sync.Cond without a Locker")
+	return Iface{}
+}
+
+func (m *Machine) callLockerMethod(fr *frame, l Iface, name string) {
+	if l.T == nil {
+		m.runtimePanic(fr, "invalid memory address or nil pointer dereference (nil Locker)")
+	}
+	switch name + ":" + l.T.String() {
+	case "Lock:*sync.Mutex", "Lock:*sync.RWMutex":
+		hMutexLock(m, fr, nil, []Value{l.V})
+	case "Unlock:*sync.Mutex", "Unlock:*sync.RWMutex":
+		hMutexUnlock(m, fr, nil, []Value{l.V})
+	default:
+		m.engineErr("sync.Cond over an unmodelled Locker %s", l.T)
+	}
+}
+
+func hCondWait(m *Machine, fr *frame, fn *ssa.Function, a []Value) Value {
+	p := a[0].(*Value)
+	c := m.condOf(p)
+	l := m.condLocker(fr, p)
+	ticket := c.next
+	c.next++
+	m.callLockerMethod(fr, l, "Unlock")
+	m.blockUntil("Cond.Wait", func() bool { return ticket < c.released })
+	m.callLockerMethod(fr, l, "Lock")
+	return nil
+}
+
+func hCondSignal(m *Machine, fr *frame, fn *ssa.Function, a []Value) Value {
+	c := m.condOf(a[0].(*Value))
+	if c.released < c.next {
+		c.released++
+	}
+	m.yield("signal")
+	return nil
+}
+
+func hCondBroadcast(m *Machine, fr *frame, fn *ssa.Function, a []Value) Value {
+	c := m.condOf(a[0].(*Value))
+	c.released = c.next
+	m.yield("signal")
+	return nil
+}
+
 func hMutexUnlock(m *Machine, fr *frame, fn *ssa.Function, a []Value) Value {
 	p := a[0].(*Value)
 	s := m.mutexOf(p)
@@ -1041,7 +1139,13 @@ func hSortSliceStable(m *Machine, fr *frame, fn *ssa.Function, a []Value) Value 
 		r := m.call(less, []Value{m.C.BVC(uint64(i), 64), m.C.BVC(uint64(j), 64)}, fr, 0)
 		return m.branch(r.(T))
 	}
-	for i := 1; i < n; i++ {
+	m.insertionSort(sl, callLess)
+	return nil
+}
+
+// insertionSort is sort.insertionSort_func: what sort.SliceStable does for n <= 20 and sort.Slice for n <= 12.
+func (m *Machine) insertionSort(sl Slice, callLess func(i, j int) bool) {
+	for i := 1; i < sl.Len; i++ {
 		for j := i; j > 0 && callLess(j, j-1); j-- {
 			e := sl.Arr.Elems
 			pa, pb := &e[sl.Off+j], &e[sl.Off+j-1]
@@ -1052,35 +1156,33 @@ func hSortSliceStable(m *Machine, fr *frame, fn *ssa.Function, a []Value) Value 
 			store(pb, va)
 		}
 	}
-	return nil
 }
 
-// sort.Slice promises an ordered permutation only (not stability): modelled as ANY permutation ordered by less.
+// sort.Slice. For n <= 12 the real function (pdqsort_func) IS the stable insertion sort, modelled exactly. Beyond that
+// it promises an ordered permutation only; the model offers two of the permitted outcomes as a choice: the stable
+// order and the order with every group of ties reversed (an under-approximation of "any ordered permutation", enough
+// to expose reliance on stability; what the real pdqsort does with a given input is seen by the native replay).
 func hSortSliceAny(m *Machine, fr *frame, fn *ssa.Function, a []Value) Value {
 	xi := a[0].(Iface)
-	sl := xi.V.(Slice)
+	sl, ok := xi.V.(Slice)
+	if !ok {
+		m.reflectPanic(fr, "sort.Slice: not a slice")
+	}
 	less := a[1]
 	n := sl.Len
-	if n > 5 {
-		m.end(StUnwind, "sort.Slice model covers n <= 5")
+	if n > 20 {
+		m.end(StUnwind, "sort.Slice model covers n <= 20")
 	}
-	old := make([]Value, n)
-	for i := 0; i < n; i++ {
-		old[i] = copyVal(sl.Arr.Elems[sl.Off+i])
+	callLess := func(i, j int) bool {
+		r := m.call(less, []Value{m.C.BVC(uint64(i), 64), m.C.BVC(uint64(j), 64)}, fr, 0)
+		return m.branch(r.(T))
 	}
-	rem := make([]int, n)
-	for i := range rem {
-		rem[i] = i
+	if n > 12 && m.choose("perm", 2, nil) == 1 {
+		// ties move in front of their equals: ordered, every tie group reversed
+		m.insertionSort(sl, func(i, j int) bool { return !callLess(j, i) })
+		return nil
 	}
-	for i := 0; i < n; i++ {
-		k := m.choose("perm", len(rem), nil)
-		store(&sl.Arr.Elems[sl.Off+i], old[rem[k]])
-		rem = append(rem[:k:k], rem[k+1:]...)
-	}
-	for i := 0; i+1 < n; i++ {
-		r := m.call(less, []Value{m.C.BVC(uint64(i+1), 64), m.C.BVC(uint64(i), 64)}, fr, 0)
-		m.assume(m.C.Not(r.(T)))
-	}
+	m.insertionSort(sl, callLess)
 	return nil
 }
 
